@@ -45,7 +45,9 @@ def run_(ctx):
                 "the calling Broker: never delivered / all but 3 bytes / completely parsed in the reactor turn in which the "
                 "connection ends / run / a run batch plus a queued batch), or the connection ended by foolscap's own "
                 "inactivity timer (connectionTimedOut called directly, or disconnectTimeout [+ keepaliveTimeout] set and the "
-                "virtual clock run past it while the peer is silent: then DeadReferenceError whatever reason foolscap picks), or a "
+                "virtual clock run past it while the peer is silent: then DeadReferenceError whatever reason foolscap picks), or any "
+                "ending with keepaliveTimeout / disconnectTimeout (each alone, both) set on the calling Broker and the virtual clock "
+                "advanced before the ending and between its two steps (garbage/shutdown/timeout ... connectionLost), or a "
                 "random abstract op sequence executed through the real callRemote/getRequest/complete/fail/finish, or three real "
                 "Tubs with a call whose argument is a third-party reference followed by 0..5 calls that arrive while it waits; "
                 "distinct = distinct case tuple; non-trivial = at least one two-way request was in the table when the "
@@ -112,7 +114,7 @@ def one(ctx, impl, traces, tag, cfg, counter=[0]):
             r = impl.scenario(cfg["calls"], cfg["cutA"], cfg["cutB"], cfg.get("chunkA", 7), cfg.get("chunkB", 7),
                               cfg.get("loss", "lost"), cfg.get("stall", "after"), tuple(cfg.get("after", ("ok", "oneway"))),
                               cfg.get("reason"), tuple(cfg["probe"]) if cfg.get("probe") else None,
-                              tuple(tuple(b) for b in cfg.get("bystanders", ())), cfg.get("other"), cfg.get("reverse"))
+                              tuple(tuple(b) for b in cfg.get("bystanders", ())), cfg.get("other"), cfg.get("reverse"), cfg.get("timers"))
     except Exception as e:
         import traceback
         ctx.fail("oracle/exception-escaped", "an exception escaped dataReceived/connectionLost/callRemote: %r on %r" % (e, cfg),
@@ -302,6 +304,63 @@ def wire_sweep(ctx, impl, traces):
     chunk_sweep(ctx, impl, traces)
     queue_sweep(ctx, impl, traces)
     reverse_sweep(ctx, impl, traces)
+    timer_sweep(ctx, impl, traces)
+
+
+# Tub options keepaliveTimeout / disconnectTimeout of the calling Broker: each alone, both, either order of magnitude
+TIMER_OPTIONS = [(10, None), (None, 30), (10, 30), (20, 15)]
+# (pre, mid): seconds the virtual clock advances before the ending begins / between its two steps (how long the transport
+# takes to close after foolscap asked for it)
+TIMER_FIXED = [([], [11, 11]), ([11], [0.5, 25]), ([3, 3], [40]), ([35, 35], [])]
+TIMER_AMOUNTS = [0, 0.5, 3, 9.5, 11, 16, 21, 29, 31, 45, 70]
+# fixed witnesses (r8s1: keepalive timer fires while the connection is abandoned, then the transport reports the loss)
+TIMER_WITNESSES = [
+    dict(calls=["late"], cutA=10 ** 9, cutB=0, loss="garbage-then-lost", chunkA=50, chunkB=50,
+         timers=dict(ka=10, dt=None, pre=[], mid=[11, 11])),
+    dict(calls=["late", "ok"], cutA=0, cutB=0, loss="garbage-then-lost", chunkA=50, chunkB=50, reason="ConnectionLost",
+         timers=dict(ka=10, dt=None, pre=[11], mid=[11])),
+    dict(calls=["late"], cutA=10 ** 9, cutB=0, loss="shutdown-then-lost", chunkA=50, chunkB=50,
+         timers=dict(ka=10, dt=None, pre=[], mid=[11, 11])),
+    dict(calls=["late"], cutA=10 ** 9, cutB=0, loss="lost", chunkA=50, chunkB=50, timers=dict(ka=10, dt=30, pre=[11, 11], mid=[])),
+]
+
+
+def timer_sweep(ctx, impl, traces):
+    """loss histories with the inactivity options set on the calling Broker (keepaliveTimeout alone, disconnectTimeout alone,
+    both) and time passing between the events: before the ending begins, and between the two steps of every two-step ending
+    (garbage that abandons the connection ... connectionLost; shutdown ... connectionLost; connectionTimedOut ...
+    connectionLost; the two reports of lost-twice), so that foolscap's own timers fire while the Broker is in every
+    intermediate state.  The rule is the property's: nothing escapes, after the loss no request is pending, each fired once.
+    Quick: the fixed witnesses, every (options, ending) pair with a rotating fixed time pattern, a seeded sample of the rest;
+    thorough: the full fixed product x states of the outstanding calls, and more samples"""
+    thorough = ctx.tier == "thorough"
+    losses = [l for l in impl.LOSS_MODES if l not in ("silence", "silence-ping")]
+    for cfg in TIMER_WITNESSES:
+        one(ctx, impl, traces, "timers", dict(cfg))
+        ctx.hist("timer_options", "ka=%r dt=%r" % (cfg["timers"]["ka"], cfg["timers"]["dt"]))
+    n = 0
+    cuts = [(10 ** 9, 0), (0, 0), (10 ** 9, 10 ** 9)]
+    for ka, dt in TIMER_OPTIONS:
+        for loss in losses:
+            for pi, (pre, mid) in enumerate(TIMER_FIXED):
+                n += 1
+                if not thorough and pi != n % len(TIMER_FIXED) and pi != 0:
+                    continue
+                for cut in (cuts if thorough else [cuts[n % 2]]):
+                    cfg = dict(calls=["late", "ok"] if n % 3 else ["late"], cutA=cut[0], cutB=cut[1], loss=loss, chunkA=50, chunkB=50,
+                               timers=dict(ka=ka, dt=dt, pre=list(pre), mid=list(mid)))
+                    one(ctx, impl, traces, "timers", cfg)
+                    ctx.hist("timer_options", "ka=%r dt=%r" % (ka, dt))
+    for i in range(ctx.n(60, 1500)):
+        ka, dt = ctx.rng.choice(TIMER_OPTIONS)
+        cut = ctx.rng.choice(cuts)
+        cfg = dict(calls=ctx.rng.choice([["late", "ok"], ["late"], ["late", "ok", "boom", "oneway", "late"], []]),
+                   cutA=cut[0], cutB=cut[1], loss=ctx.rng.choice(losses), chunkA=50, chunkB=50, reason=ctx.rng.choice(REASON_NAMES),
+                   timers=dict(ka=ka, dt=dt, pre=[ctx.rng.choice(TIMER_AMOUNTS) for _ in range(ctx.rng.randint(0, 3))],
+                               mid=[ctx.rng.choice(TIMER_AMOUNTS) for _ in range(ctx.rng.randint(0, 3))]))
+        one(ctx, impl, traces, "timers", cfg)
+        ctx.hist("timer_options", "ka=%r dt=%r" % (ka, dt))
+    ctx.sample(dict(kind="timers", cfg=cfg))
 
 
 REVERSE_CALLS = [["oneway"], ["ok"], ["oneway", "ok", "late", "oneway"], ["late", "boom"], ["big", "oneway", "nomethod"],
